@@ -65,6 +65,8 @@ def main():
             os.makedirs(tdir, exist_ok=True)
             sh("cp %s %s" % (os.path.join(d, "demo.rs"), os.path.join(tdir, name + ".rs")))
             demo_cmd = "cargo test --offline -p %s --test %s 2>&1" % (crate, name)
+            if meta.get("demo_cmd"):
+                demo_cmd = meta["demo_cmd"].replace("{wt}", wt).replace("{seed}", d)
         else:
             demo_cmd = meta.get("demo_cmd", "false").replace("{wt}", wt).replace("{seed}", d)
         # without the change
